@@ -94,7 +94,9 @@ func (f *Do) Call(s *slip.Scope, args slip.List, depth int) (result slip.Object)
 						return tr
 					}
 				case *GoTo:
-					for i++; i < len(args); i++ {
+					// The tag can be anywhere in the body, before the go
+					// as well.
+					for i = 2; i < len(args); i++ {
 						if args[i] == tr.Tag {
 							break
 						}
